@@ -11,7 +11,7 @@ from hypothesis.stateful import RuleBasedStateMachine, rule
 
 from ..core import rng_from, to_np
 from ..runner import xp_of
-from .base import Violation
+from .base import MachineMixin, Violation
 from .c16 import bits_of, ns_of
 
 TRANSFORMS = ("Identity", "Periodic", "Probit", "Logit", "Affine", "Composite", "FlowT")
@@ -418,7 +418,7 @@ def make_machine(interp_factory, workdir, col):
     aopts = st.fixed_dictionaries({"eps": st.sampled_from([1e-6, 1e-4]), "periodic": st.booleans(), "bounded": st.booleans(), "bounds": st.booleans(),
                                    "bounded_transform": st.sampled_from(["logit", "probit"]), "xp_given": st.booleans()})
 
-    class C13Machine(RuleBasedStateMachine):
+    class C13Machine(MachineMixin, RuleBasedStateMachine):
         def __init__(self):
             super().__init__()
             self.it = interp_factory(workdir, col)
@@ -426,42 +426,33 @@ def make_machine(interp_factory, workdir, col):
         @rule(cls=st.sampled_from(["BaseSamples", "Samples", "SMCSamples"]), xp=xp_s, dtype=dt_s, fields=st.tuples(st.booleans(), st.booleans(), st.booleans()),
               flat=st.booleans(), n=st.integers(2, 7), d=st.integers(1, 3), seed=st.integers(0, 999), named=st.booleans())
         def save_samples(self, cls, xp, dtype, fields, flat, n, d, seed, named):
-            self.it.op_save_samples(cls=cls, xp=xp, dtype=dtype, fields=list(fields), flat=flat, n=n, d=d, seed=seed, named=named)
+            self.do("save_samples", cls=cls, xp=xp, dtype=dtype, fields=list(fields), flat=flat, n=n, d=d, seed=seed, named=named)
 
         @rule(kind=st.sampled_from(["flow", "smc", "smc"]), xp=xp_s, dtype=dt_s, n_iter=st.integers(1, 4), seed=st.integers(0, 999), with_pops=st.booleans())
         def save_history(self, kind, xp, dtype, n_iter, seed, with_pops):
-            self.it.op_save_history(kind=kind, xp=xp, dtype=dtype, n_iter=n_iter, seed=seed, with_pops=with_pops)
+            self.do("save_history", kind=kind, xp=xp, dtype=dtype, n_iter=n_iter, seed=seed, with_pops=with_pops)
 
         @rule(cls=st.sampled_from(TRANSFORMS), xp=xp_s, dtype=dt_s, opts=topts, seed=st.integers(0, 999), fitted=st.booleans())
         def save_transform(self, cls, xp, dtype, opts, seed, fitted):
-            self.it.op_save_transform(cls=cls, xp=xp, dtype=dtype, opts=opts, seed=seed, fitted=fitted)
+            self.do("save_transform", cls=cls, xp=xp, dtype=dtype, opts=opts, seed=seed, fitted=fitted)
 
         @rule(seed=st.integers(0, 999), shape=st.integers(0, (1 << 13) - 1))
         def save_dict(self, seed, shape):
-            self.it.op_save_dict(seed=seed, shape=shape)
+            self.do("save_dict", seed=seed, shape=shape)
 
         @rule(xp=xp_s, dtype=dt_s, opts=aopts, seed=st.integers(0, 999))
         def save_aspire(self, xp, dtype, opts, seed):
-            self.it.op_save_aspire(xp=xp, dtype=dtype, opts=opts, seed=seed)
+            self.do("save_aspire", xp=xp, dtype=dtype, opts=opts, seed=seed)
 
         @rule()
         def restart(self):
-            self.it.op_restart()
+            self.do("restart", )
 
         @rule(which=st.integers(0, 50))
         def load(self, which):
-            self.it.op_load(which=which)
+            self.do("load", which=which)
 
         def teardown(self):
-            col.last_ops = list(self.it.ops)
-            try:
-                self.it.finish()
-                col.examples += 1
-                col.steps += len(self.it.ops)
-                col.seqs.add(tuple(op for op, _ in self.it.ops))
-                if col.sample is None and len(self.it.ops) >= 3:
-                    col.sample = {"ops": self.it.ops[:6]}
-            finally:
-                self.it.close()
+            self.finish_example(col)
 
     return C13Machine
